@@ -242,8 +242,17 @@ TRUSTED_BASE = [
     'CPython int/Fraction arithmetic used by the Spec oracle',
 ]
 
-def proof_stage(rep: Report, prop: str, thorough: bool) -> dict:
-    """build Props/<prop>, audit; fills rep.broken; returns coverage keys"""
+def proof_stage(rep: Report, prop: str, thorough: bool, extra: list[str] | None = None) -> dict:
+    """build Props/<prop> (+ extra Props modules of the same property), audit; fills rep.broken; returns coverage keys"""
+    res = _proof_stage_one(rep, prop, thorough)
+    for e in (extra or []):
+        if not (LEAN / 'Fpy' / 'Props' / f'{e}.lean').exists(): continue
+        r2 = _proof_stage_one(rep, e, thorough)
+        res['obligations'] += r2['obligations']; res['discharged'] += r2['discharged']
+        res['theorems'] += r2['theorems']; res['checker_cmd'] += ' ; ' + r2['checker_cmd']
+    return res
+
+def _proof_stage_one(rep: Report, prop: str, thorough: bool) -> dict:
     ok, log = lake_build([f'Fpy.Props.{prop}'])
     if not ok:
         rep.broke('lean-build', f'Fpy.Props.{prop}', log)
